@@ -177,6 +177,16 @@ def build(rng, base=None):
                 if oxt is not None:
                     late_oxt = (i_, oxt)
                     desc["events"].append("terminal-oxygen-only-in-later-models")
+        # one residue that is itself in one model, a mutant in another and absent from a third
+        same_site = None
+        if k >= 3 and equal_size is None and tit and rng.random() < 0.25:
+            ms_ = rng.sample(range(1, k + 1), 2)
+            # (preferably a residue whose mutant brings atom names of its own: GLU -> ASP, GLN -> ASN / GLU, ASN -> ASP,
+            # CYS -> SER - a conformation that is completed from both would hold atoms of both)
+            own_names = [i for i in prot if rl[i].key[4] in ("GLU", "GLN", "ASN", "CYS")]
+            glu_ = [i for i in prot if rl[i].key[4] == "GLU"]           # (GLU -> ASP: both forms are ionizable)
+            same_site = (rng.choice(glu_ if glu_ and rng.random() < 0.6 else (own_names or tit)), ms_[0], ms_[1])
+            desc["events"].append("one-residue-mutant-in-one-model-and-missing-in-another")
         # a metal site that holds another ion in each model (one chain and residue number, different residue names)
         ion_site = None
         ion_gap = 0
@@ -221,13 +231,15 @@ def build(rng, base=None):
                 if res.ter_before and not first:
                     out.append(pdbio.raw("TER"))
                 first = False
-                if i in kill_res:
+                if i in kill_res or (same_site is not None and i == same_site[0] and m == same_site[2]):
                     continue
                 atoms = res.atoms
-                if i in mutate:
+                if i in mutate or (same_site is not None and i == same_site[0] and m == same_site[1]):
                     atoms = mutate_residue(atoms, rng) or atoms
-                if late_oxt is not None and i == late_oxt[0] and i not in mutate:
-                    atoms = [a for a in atoms if a.aname() not in ("OXT", "O''")] + ([late_oxt[1]] if m > 1 else [])
+                if late_oxt is not None and i == late_oxt[0] and i not in mutate and atoms:
+                    ox_ = late_oxt[1].copy()
+                    ox_.resn = atoms[0].resn          # (the residue may be a mutant in this model)
+                    atoms = [a for a in atoms if a.aname() not in ("OXT", "O''")] + ([ox_] if m > 1 else [])
                 for a in atoms:
                     if kill_atoms and rng.random() < kill_atoms:
                         continue
